@@ -123,7 +123,7 @@ ADDENDA = {
  "C10": "Also: packet size lowered mid-response, hostile key parameters in the login negotiation, formats with BLOB columns followed by blob rows whose data sets announce up to 2^26 bytes (allocation measured for every case). A packet size announced while a message is being assembled; responses of up to 500000 packages (3 million in the thorough tier) drained three ways with the growth of goroutine stacks bounded; arbitrary capability types and masks in the login responses. Well-formed public keys of other algorithms / encodings / PEM types in the negotiation. A channel closed while the reader is inside a packet that holds more packages than the queue takes; thousands of broken packets nobody collects the errors of (goroutine count).",
  "C11": "Also: callback errors wrapping io.EOF or a foreign *EEDError, the error's message list compared exactly (nothing foreign, nothing twice), a consumer polling with wait=false while the packets arrive. After every packet size announcement a request longer than one packet is sent on the (older) channel and must go out in full packets of the new size; hook slices shared between registrations. Callbacks that return (true, err). Environment values of 254 / 255 bytes.",
  "C12": "Also: packets for closed channels, more than 256 packets on a channel, a channel whose consumer is behind while another channel is closed, channels created after closes (late packets for closed ids reach nobody, ids distinct over the connection's history). A teardown acknowledged by the server while the channel is still registered; 40..520 channels created and closed over the life of one connection (33000 in the thorough tier), every id new and every response routed. A channel whose error queue is full is closed, the others go on.",
- "C13": "Also: header-only control packets in a full queue, Close with a cancelled parent context while a send is parked, 2..3 overlapping Close calls (Channel.Close during Conn.Close), and what a consumer woken by Close is told. A context cancelled from inside the transport's k-th write of a request (nothing more is written); Conn.Close with a gap in the channel ids; the closed condition checked the moment any of several overlapping Close calls returns. A next request (live context) after every send with a cancelled context: nothing of the cancelled one may be written later either; Reset() called before cancel / Close. Contexts cancelled with a cause / deadline with a cause; the main channel closed before Conn.Close; a parked request of several packets.",
+ "C13": "Also: header-only control packets in a full queue, Close with a cancelled parent context while a send is parked, 2..3 overlapping Close calls (Channel.Close during Conn.Close), and what a consumer woken by Close is told. A context cancelled from inside the transport's k-th write of a request (nothing more is written); Conn.Close with a gap in the channel ids; the closed condition checked the moment any of several overlapping Close calls returns. A next request (live context) after every send with a cancelled context: nothing of the cancelled one may be written later either; Reset() called before cancel / Close. Contexts cancelled with a cause / deadline with a cause; the main channel closed before Conn.Close; a parked request of several packets, also on the main channel (Close's logout waits for the message being sent).",
  "C14": "Also: three further receive calls after the failure, a consumer polling with wait=false after the prefix, and a request whose 1st..3rd write fails before the response arrives. The end of the stream reported by an error wrapping io.EOF (tunnelled transport), with or without the last bytes; packets of type NORMAL. Up to 40 further receive calls after the failure (more than the connection's error queue holds). A waiting consumer collects the buffered packages before it is told about the failure.",
  "C15": "Also: a failed read hands back only bytes of the stream (never more than available, never bytes nobody wrote). The caller changes and appends to slices returned by Bytes; three queues used in turns. A failed Bytes/Read hands out every byte it consumed. A queue written to after everything enqueued was read (open finding for empty enqueued packets behind the position).",
  "C16": "Also: String() after Precision/Scale were changed, integer parts too wide for the precision. Concurrent conversions under the race detector; magnitudes around 2^63. Precision / scale values whose low 8 / 16 / 32 bits look valid.",
